@@ -81,6 +81,7 @@ def scenarios(draw):
     if draw(st.booleans()):
         actions.insert(1, {'a': 'label', 'obj': draw(st.integers(0, 1)), 'v': 'yes', 'dt': draw(dts)})
     cluster = {'status_sub': draw(st.booleans()), 'api_latency': draw(st.sampled_from([None, 0.2, 0.2, 1.0])),
+               'rsp_latency': draw(st.sampled_from([None, None, 0.3, 1.0])),
                'watch_latency': draw(st.sampled_from([None, None, 0.1, 0.5])),
                'quirk_deleted_keeps_finalizer': draw(st.booleans()), 'quirk_final_patch_bumps_rv': draw(st.booleans())}
     pre = []
